@@ -290,7 +290,35 @@ def run_history(ctx, rng, hid, transport_kind, nclients, nops, delay_us):
             if ans["status"] != st:
                 ctx.disagree("sequential set-up request vs model", {"request": r}, st, ans["status"])
                 return
-        plans = [[gen_op(rng) for _ in range(nops)] for _ in range(nclients)]
+        if rng.random() < 0.4:
+            # readers listing a calendar while writers replace / refill it: a listing must show one state
+            cal = rng.choice(CALS)
+            nops = max(nops, 4)
+            delay_us = max(delay_us, 2000)
+            plans = []
+            for ci in range(nclients):
+                if ci % 3 == 0:
+                    ops = []
+                    for _ in range(nops):
+                        q = rng.random()
+                        if q < 0.6:
+                            objs, seen = [], set()
+                            for o in [rng.choice(POOL) for _ in range(rng.randint(1, 3))]:
+                                if o["uid"] not in seen:
+                                    seen.add(o["uid"])
+                                    objs.append(o)
+                            ops.append({"method": "PUT", "path": cal, "as_collection": True, "body": "cal", "objs": objs})
+                        elif q < 0.8:
+                            ops.append({"method": "PUT", "path": cal + [rng.choice(HREFS)], "body": "cal", "objs": [rng.choice(POOL)]})
+                        else:
+                            ops.append({"method": "DELETE", "path": cal + [rng.choice(HREFS)], "as_collection": False})
+                    plans.append(ops)
+                else:
+                    plans.append([rng.choice([{"method": "PROPFIND", "path": cal, "as_collection": True, "depth1": True},
+                                              {"method": "MULTIGET", "path": cal, "hrefs": [cal + [h] for h in HREFS + ["u1.ics", "u2.ics", "u3.ics"]],
+                                               "book": False}]) for _ in range(nops + 1)])
+        else:
+            plans = [[gen_op(rng) for _ in range(nops)] for _ in range(nclients)]
         hist = []
         lock = threading.Lock()
         errors = []
@@ -308,15 +336,21 @@ def run_history(ctx, rng, hid, transport_kind, nclients, nops, delay_us):
                         hist.append({"client": ci, "r": r, "t0": t0, "t1": t1, "raw": (st, hd, text)})
             except Exception as e:       # pragma: no cover
                 errors.append(repr(e))
-        if transport_kind == "threads":
+        logpath = None
+        if transport_kind == "threads" and delay_us > 0:
+            # delays are injected only while the interposer is logging
+            logpath = os.path.join(tempfile.gettempdir(), "rverif-c09-%d.log" % os.getpid())
+            interposer.start(logpath)
             interposer.delay(delay_us, rng.randint(1, 10**6))
         ths = [threading.Thread(target=client, args=(i,), daemon=True) for i in range(nclients)]
         for t in ths:
             t.start()
         for t in ths:
             t.join(timeout=120)
-        if transport_kind == "threads":
+        if logpath:
             interposer.delay(0, 1)
+            interposer.stop()
+            os.unlink(logpath)
         if errors or any(t.is_alive() for t in ths):
             raise RuntimeError("client failure: %s" % errors[:2])
         for h in hist:
@@ -348,17 +382,97 @@ def run_history(ctx, rng, hid, transport_kind, nclients, nops, delay_us):
         transport.close()
 
 
-def sequential_explained(ctx, ops):
+def sequential_explained(ctx, ops, setup=None):
     """run the same requests one at a time on a fresh application and on the model: do they agree?"""
     sim = davsim.Sim(ctx, {"auth": {"type": "none"}})
     try:
-        for r in SETUP + [h["r"] for h in ops]:
+        for r in (setup or SETUP) + [h["r"] for h in ops]:
             obs, ans, diffs = sim.step(r, "u")
             if diffs:
                 return False
         return True
     finally:
         sim.close()
+
+
+def run_targeted(ctx, rng, hid):
+    """a reader is paused in the middle of walking a collection (at its k-th item read) while a writer request is
+    started; with a correct lock the writer waits for the reader, otherwise it slips in and the reader's answer mixes
+    two states.  The two-request history goes through the same linearizability search."""
+    import radicale.storage.multifilesystem.get as mget
+    conf = {"auth": {"type": "none"}, "rights": permissive_rights()}
+    sim = davsim.Sim.__new__(davsim.Sim)
+    transport = InProcess(conf)
+    etag_cid = {}
+    orig_get = mget.CollectionPartGet._get
+    try:
+        base = ctx.driver.ask1({"m": "dav", "op": "new"})["sid"]
+        lin0 = Linearizer(ctx, [], None, etag_cid, base)
+        cal = ["u", "c1"]
+        setup = [SETUP[0], SETUP[1]] + [{"method": "PUT", "path": cal + [h], "body": "cal", "objs": [o]}
+                                        for h, o in zip(["a.ics", "b.ics", "k.vcf"], [POOL[0], POOL[2], POOL[4]])]
+        store = None
+        for r in setup:
+            m, path, body, env = davsim.Sim.http(sim, r)
+            st, hd, text = transport.send(0, m, path, body, env)
+            observe(r, st, hd, text, etag_cid)
+            store = lin0.model_req(base, r)["store"]
+        reader = rng.choice([{"method": "PROPFIND", "path": cal, "as_collection": True, "depth1": True},
+                             {"method": "MULTIGET", "path": cal, "hrefs": [cal + [h] for h in ["a.ics", "b.ics", "k.vcf", "u1.ics", "u3.ics"]], "book": False}])
+        objs, seen = [], set()
+        for o in [rng.choice(POOL) for _ in range(rng.randint(1, 3))]:
+            if o["uid"] not in seen:
+                seen.add(o["uid"])
+                objs.append(o)
+        writer = rng.choice([{"method": "PUT", "path": cal, "as_collection": True, "body": "cal", "objs": objs},
+                             {"method": "DELETE", "path": cal + [rng.choice(["a.ics", "b.ics"])], "as_collection": False},
+                             {"method": "MOVE", "path": cal + ["a.ics"], "dest": cal + ["z.ics"], "overwrite": True}])
+        pause_at = rng.randint(1, 3)
+        hist = []
+        state = {"n": 0, "writer": None, "reader_tid": None}
+
+        def do(ci, r):
+            m, path, body, env = davsim.Sim.http(sim, r)
+            t0 = time.monotonic()
+            st, hd, text = transport.send(ci, m, path, body, env)
+            t1 = time.monotonic()
+            hist.append({"client": ci, "r": r, "t0": t0, "t1": t1, "raw": (st, hd, text)})
+
+        def paused_get(self, href, verify_href=True):
+            if threading.get_ident() == state["reader_tid"]:
+                state["n"] += 1
+                if state["n"] == pause_at and state["writer"] is None:
+                    state["writer"] = threading.Thread(target=do, args=(1, writer), daemon=True)
+                    state["writer"].start()
+                    state["writer"].join(timeout=0.3)       # a correct lock keeps the writer waiting: go on
+            return orig_get(self, href, verify_href)
+        mget.CollectionPartGet._get = paused_get
+        state["reader_tid"] = threading.get_ident()
+        do(0, reader)
+        if state["writer"] is not None:
+            state["writer"].join(timeout=30)
+        mget.CollectionPartGet._get = orig_get
+        for h in hist:
+            st, hd, text = h.pop("raw")
+            h["obs"] = observe(h["r"], st, hd, text, etag_cid)
+            if st >= 500:
+                ctx.violation("a request was answered %d when a writer was started in the middle of a listing" % st,
+                              {"reader": reader, "writer": writer, "pause_at_item": pause_at})
+        fin = final_state(transport, sim, etag_cid)
+        case = {"reader": reader["method"], "writer": writer["method"], "pause_at_item": pause_at, "writer_started": state["writer"] is not None}
+        ctx.case("targeted:%s/%s" % (reader["method"], writer["method"]), sample=case, key=[hid], nontrivial=state["writer"] is not None)
+        lin = Linearizer(ctx, hist, fin, etag_cid, base)
+        order = lin.search(base, json.dumps(store, sort_keys=True), frozenset())
+        if order is None:
+            replay = {"schedule": "reader paused at its item read #%d while the writer request is issued" % pause_at,
+                      "history": [{"client": h["client"], "request": h["r"], "observed": h["obs"]} for h in hist], "final": fin}
+            if sequential_explained(ctx, sorted(hist, key=lambda x: x["t1"]), setup):
+                ctx.violation("a listing interrupted by a write shows a state no one-at-a-time order produces", replay)
+            else:
+                ctx.disagree("the sequential model does not explain these requests even one at a time", replay, "observed", "model")
+    finally:
+        mget.CollectionPartGet._get = orig_get
+        transport.close()
 
 
 def witness_f6(ctx):
@@ -414,4 +528,6 @@ def run(ctx):
         run_history(ctx, rng, ("t", h), "threads", rng.choice([2, 3, 4, 6, 8]), rng.randint(2, 4), rng.choice([0, 50, 300]))
     for h in range(n_mp):
         run_history(ctx, rng, ("p", h), "processes", rng.choice([2, 4, 6]), rng.randint(2, 3), rng.choice([50, 300]))
+    for h in range(ctx.n(25, 600)):
+        run_targeted(ctx, rng, ("x", h))
     witness_f6(ctx)
